@@ -25,6 +25,9 @@ Line protocol (stdin → stdout):
   chain id 2s sfx       the Wigner-D functions of the axis-angle alignment sum of final state `id`
                         (`formulate_rotation_chain`), one `D 2s m=… mp=… alpha=… beta=… gamma=…` per line
                         (sorted), then `end`
+  wchain id             `W n descr`: `compute_wigner_rotation_matrix(topology, momenta, id)` as
+                        `(mmul (B (negp p<id>)) B₁ … B_n)` with `B_k = (B mom)` and the momenta boosted as
+                        `(amul B_k mom)` after every step (`compute_boost_chain`); n = chain length
 -/
 namespace Ampverif.Model.C04Frames
 
@@ -127,6 +130,58 @@ def dictSet (d : Dict) (k v : String) : Dict :=
 def dictUpdate (d e : Dict) : Dict := e.foldl (fun acc kv => dictSet acc kv.1 kv.2) d
 
 def sumOf (ms : List String) : String := "(sum " ++ " ".intercalate ms ++ ")"
+
+/-! ### the Wigner rotation matrix of the axis-angle alignment
+(`kinematics/angles.py: compute_wigner_rotation_matrix`, `kinematics/lorentz.py: compute_boost_chain`,
+`__get_boost_chain_ids`, `get_four_momentum_sum`; `helicity/decay.py: list_decay_chain_ids`, `get_parent_id`) -/
+
+/-- `get_parent_id` -/
+def parentId (t : Topo) (id : Int) : Option Int :=
+  match findEdge t id with
+  | none => none
+  | some e =>
+    match e.orig with
+    | none => none
+    | some n => (t.find? (fun p => p.dest == some n)).map (·.id)
+
+/-- `list_decay_chain_ids`: the state, its parent, …, the initial state -/
+def decayChainIds (t : Topo) : Nat → Int → List Int
+  | 0, _ => []
+  | fuel + 1, id =>
+    id :: (match parentId t id with
+      | none => []
+      | some p => decayChainIds t fuel p)
+
+/-- `next(iter(topology.incoming_edge_ids))` -/
+def initialId (t : Topo) : Option Int :=
+  (t.find? (fun e => e.orig.isNone && e.dest.isSome)).map (·.id)
+
+/-- `__get_boost_chain_ids`: from the first resonance down to the state (initial state removed) -/
+def boostChainIds (t : Topo) (id : Int) : List Int :=
+  let ids := (decayChainIds t (t.length + 1) id).reverse
+  match initialId t with
+  | some i => ids.erase i
+  | none => ids
+
+/-- `get_four_momentum_sum` -/
+def momentumSum (t : Topo) (id : Int) : String :=
+  if isFinal t id then s!"p{id}" else sumOf ((attached t id).map (fun i => s!"p{i}"))
+
+/-- `compute_boost_chain`: after every boost ALL momenta of the pool are boosted -/
+def boostChainDescr (t : Topo) (id : Int) : List String :=
+  let ids := boostChainIds t id
+  let pool0 : Pool := ids.map (fun i => (i, momentumSum t i))
+  let step := fun (st : Pool × List String) (cur : Int) =>
+    let b := "(B " ++ poolGet st.1 cur ++ ")"
+    (st.1.map (fun kv => (kv.1, "(amul " ++ b ++ " " ++ kv.2 ++ ")")), st.2 ++ [b])
+  (ids.foldl step (pool0, [])).2
+
+/-- `compute_wigner_rotation_matrix` -/
+def wignerMatrixDescr (t : Topo) (id : Int) : String :=
+  "(mmul (B (negp p" ++ toString id ++ ")) " ++ " ".intercalate (boostChainDescr t id) ++ ")"
+
+/-- number of boosts in the chain (= depth of the state) -/
+def wignerChainLength (t : Topo) (id : Int) : Nat := (boostChainIds t id).length
 
 def chain (s inner : String) : String :=
   "(amul (Bz (beta " ++ s ++ ")) (Ry (neg (Theta " ++ s ++ "))) (Rz (neg (Phi " ++ s ++ "))) " ++ inner ++ ")"
@@ -272,6 +327,10 @@ def handle (t : Topo) (toks : List String) : Topo × List String :=
     match id.toInt?, twoS.toInt? with
     | some id, some twoS => (t, sortStrs (rotationChain t id twoS sfx) ++ ["end"])
     | _, _ => (t, ["bad-chain"])
+  | ["wchain", id] =>
+    match id.toInt? with
+    | some id => (t, [s!"W {wignerChainLength t id} " ++ wignerMatrixDescr t id])
+    | none => (t, ["bad-wchain"])
   | ["wigner", j, m, c1, c2] =>
     match j.toInt?, m.toInt?, parsePair c1, parsePair c2 with
     | some j, some m, some c1, some c2 => (t, [wignerD t j m c1 c2])
